@@ -62,7 +62,9 @@ class AccessMixin(object):
       return [(st, self.read_field(st, VRef('opaque:' + v.label, v.t), name))]
     if isinstance(v, VCallable) and not name.startswith('__'):
       # a method of an opaque user object: itself an opaque callable, identified by (object, method name)
-      return [(st, VCallable(z3.Function('attr_' + name, z3.IntSort(), z3.IntSort())(v.t), label='%s.%s' % (v.label, name)))]
+      m_ = VCallable(z3.Function('attr_' + name, z3.IntSort(), z3.IntSort())(v.t), label='%s.%s' % (v.label, name))
+      m_.owner = v            # the object the method was looked up on
+      return [(st, m_)]
     raise Unsupported('attribute %s of %r' % (name, v))
 
   def class_attr(self, st, cls, name):
